@@ -34,7 +34,6 @@ Separate Extraction
   Config.save Config.load Config.load_bytes Config.open_db Config.no_dir Config.mkdir Config.truncate_manifest
   Config.flip_bit Config.pnum Config.float_of_num Config.enc_int Config.N_of_dec Config.dec_of_N
   Hist.lin_check Hist.lin_verdicts
-.
   LockDiscipline.protectedb LockDiscipline.flagged_rows LockDiscipline.acyclicb Locks.gen_accesses Locks.gen_order
   SSTable.write SSTable.cut SSTable.ti_new SSTable.ti_seek_first SSTable.ti_seek_last SSTable.ti_seek SSTable.ti_next
   SSTable.ti_valid SSTable.ti_cur SSTable.t_get SSTable.wf_sentry SSTable.ascending
